@@ -74,6 +74,8 @@ type plan struct {
 	l2      bool
 	ident   int // which of the run's breaker identities
 	variant int // concrete realisation of the outcome (status, gRPC code, error value, ...)
+	shape   int // REST: the header / write sequence of the handler (resthdr_test.go); 0: one WriteHeader at most
+	hsub    int // ... and its details (which informational statuses, which superfluous status)
 }
 
 const (
@@ -98,6 +100,13 @@ type phase struct {
 	variant    int  // sustained phase: the one failure kind of the phase
 	valKind    int  // ... and the one error identity / panic value of the phase
 	outage     bool // sqlx sustained phase: the failure kind is "the database is unreachable"
+	shape      int  // REST sustained phase: the one header / write sequence of the phase
+	hsub       int
+	// long in-flight times (slow_test.go)
+	long   int           // mixed phase: how many of its calls stay in flight for long (longNone .. longAll)
+	slow   bool          // sustained phase in which EVERY call fails slowly: open-loop arrivals, one task per call
+	slowA  int           // ... its first slowA calls are the opening wave, the rest the stream that must be rejected
+	slowSA time.Duration // ... spacing of the opening wave
 }
 
 var runCounter int
@@ -274,6 +283,7 @@ func drawPhases(t *simrt.Tape, tier string, registry, lazy bool) []*phase {
 		case phMixed:
 			ph.failPct = []int{0, 100, 50, 10, 90, 30}[t.Intn(6)]
 			ph.profile = t.Intn(5)
+			ph.long = t.Intn(4)
 			if i > 0 {
 				switch t.Intn(4) {
 				case 1:
@@ -288,10 +298,16 @@ func drawPhases(t *simrt.Tape, tier string, registry, lazy bool) []*phase {
 			if clients > 1 {
 				per = t.Range(1, maxMulti)
 			}
+			if ph.long == longAll && per > 12 {
+				per = 12 // every call outlives the window: the history is short
+			}
+			budget := longBudget
 			ph.plans = make([][]plan, clients)
 			for c := range ph.plans {
 				for j := 0; j < per; j++ {
-					ph.plans[c] = append(ph.plans[c], drawPlan(t, ph.failPct, ph.profile, registry, true))
+					p := drawPlan(t, ph.failPct, ph.profile, registry, true)
+					applyLong(t, &p, ph.long, &budget)
+					ph.plans[c] = append(ph.plans[c], p)
 				}
 			}
 		case phProbe:
@@ -335,6 +351,11 @@ func drawPhases(t *simrt.Tape, tier string, registry, lazy bool) []*phase {
 					p.think = think{kind: thFixed, d: spacing * time.Duration(clients)}
 				}
 				ph.plans[j%clients] = append(ph.plans[j%clients], p)
+			}
+			// every call of the phase fails slowly (slow_test.go); not in a phase that starts
+			// with the concurrent first lookups of a name
+			if !(lazy && i == 0) && t.Intn(3) == 2 {
+				drawSlowSustained(t, ph, total, registry)
 			}
 		case phTrickle:
 			// many accepted calls at once, then one failure (or a few) per slot for most of
@@ -475,7 +496,7 @@ func body(r *simrt.Run, tier string) {
 			for _, ps := range ph.plans {
 				n += len(ps)
 			}
-			r.Logf("phase %d: %s gap=%v failPct=%d profile=%d clients=%d calls=%d", i, phaseNames[ph.kind], ph.gap, ph.failPct, ph.profile, len(ph.plans), n)
+			r.Logf("phase %d: %s gap=%v failPct=%d profile=%d clients=%d calls=%d%s", i, phaseNames[ph.kind], ph.gap, ph.failPct, ph.profile, len(ph.plans), n, ph.longDescr())
 		}
 		r.Logf("first use: mode=%d created-by-first-use=%v holders=%v noise=%d/%d", fu.mode, fu.lazy, fu.holders, fu.noise, fu.noiseN)
 	}
@@ -487,7 +508,7 @@ func body(r *simrt.Run, tier string) {
 			n += len(ps)
 		}
 		total += n
-		descr = append(descr, fmt.Sprintf("%s(gap=%v clients=%d calls=%d fail%%=%d think-profile=%d)", phaseNames[ph.kind], ph.gap, len(ph.plans), n, ph.failPct, ph.profile))
+		descr = append(descr, fmt.Sprintf("%s(gap=%v clients=%d calls=%d fail%%=%d think-profile=%d%s)", phaseNames[ph.kind], ph.gap, len(ph.plans), n, ph.failPct, ph.profile, ph.longDescr()))
 	}
 	first := ""
 	for i, p := range phases[0].plans[0] {
@@ -521,6 +542,18 @@ func body(r *simrt.Run, tier string) {
 			r.Sleep(ph.gap)
 		}
 		from := len(w.calls)
+		if ph.slow {
+			fromB, ok := runSlow(r, pi, ph, w, func(p *plan) { ws[p.ident].call(p) })
+			if !ok {
+				return
+			}
+			settleAll(fmt.Sprintf("after slow sustained phase %d", pi))
+			if r.Failed() {
+				return
+			}
+			w.checkOpensSlow(from, fromB, ph.spacing)
+			continue
+		}
 		if len(ph.plans) == 1 {
 			for i := range ph.plans[0] {
 				p := &ph.plans[0][i]
